@@ -39,6 +39,16 @@ TABLE = [
      "state) is replayed and compared with a list model after every step; random histories check that the span only widens; "
      "textgrid-level edits are compared with the per-tier operations and validate().",
      _NOTE, "DESIGN.md section 3 C12"),
+    ("C05", "Hypothesis generated operation histories (selector-based op lists) with a well-formedness invariant after every step",
+     "Histories of <=12 operations over all 16 tier operations with arbitrary (also out-of-domain) arguments on dyadic and decimal "
+     "timestamps; after every step every live tier must be sorted, disjoint, inside its span, trimmed and validate(); only "
+     "praatio errors may be raised for in-domain arguments.",
+     _NOTE, "DESIGN.md section 3 C05"),
+    ("C13", "Hypothesis generated histories and failing-argument cases with exact before/after snapshots (receiver, arguments, destination file bytes)",
+     "Every tier and textgrid operation is called with generated (also failing) arguments; exact snapshots of receiver and arguments "
+     "are compared before/after on the success and the exception path; mutators must be all-or-nothing; a failing save must "
+     "leave a pre-existing destination file byte-identical.",
+     _NOTE, "DESIGN.md section 3 C13"),
 ]
 
 PENDING = {}
